@@ -3,6 +3,7 @@
 package ctlog
 
 import (
+	"bytes"
 	"context"
 	"crypto/x509"
 	"encoding/base64"
@@ -86,7 +87,7 @@ func TestVerifC06Instances(t *testing.T) {
 			}
 			return out
 		}
-		conflicts, contended, midLoads, stale := 0, 0, 0, 0
+		conflicts, contended, midLoads, stale, loadsWithInner := 0, 0, 0, 0, 0
 		// runRound runs one round of instance idx and judges its outcome.
 		var runRound func(idx int, inlineCtx bool, y func(p *simProc, op *simOp)) error
 		runRound = func(idx int, inlineCtx bool, y func(p *simProc, op *simOp)) error {
@@ -218,8 +219,48 @@ func TestVerifC06Instances(t *testing.T) {
 			if v := s.w.violations(); len(v) > 0 {
 				t.Fatalf("C06 violated: %s\nschedule:\n  %s", v[0], strings.Join(desc, "\n  "))
 			}
-			if rapid.IntRange(0, 4).Draw(t, "extraLoad") == 0 {
+			switch rapid.IntRange(0, 5).Draw(t, "extraLoad") {
+			case 0:
 				load("later")
+			case 1, 2:
+				// a new instance starts while a running one completes a whole round between two of the
+				// newcomer's start-up reads (rolling restart)
+				al := alive()
+				if len(al) == 0 {
+					break
+				}
+				runner := al[rapid.IntRange(0, len(al)-1).Draw(t, "runner")]
+				at := rapid.IntRange(1, 6).Draw(t, "loadYield")
+				n := rapid.IntRange(1, 4).Draw(t, "runnerN")
+				p0 := s.newProc()
+				count := 0
+				var innerErr error
+				s.w.yield = func(p *simProc, op *simOp) {
+					if p != p0 {
+						return
+					}
+					count++
+					if count == at && !insts[runner].stopped {
+						submit(insts[runner], n)
+						s.w.clock += 3
+						descf("  at start-up read %d of a new instance (%s %s): instance %d runs a whole round", count, op.Kind, op.Key, runner)
+						loadsWithInner++
+						if err := runRound(runner, true, nil); err != nil {
+							innerErr = err
+						}
+					}
+				}
+				in, err := s.loadWith(p0, nil)
+				s.w.yield = nil
+				if innerErr != nil {
+					t.Fatalf("C06 violated: %v\nschedule:\n  %s", innerErr, strings.Join(desc, "\n  "))
+				}
+				if err != nil {
+					descf("load(during another instance's round) refused: %s", simShortErr(err))
+				} else {
+					insts = append(insts, in)
+					descf("load(during another instance's round) -> instance %d at size %d (lock store at %d)", len(insts)-1, in.l.tree.N, len(s.model))
+				}
 			}
 		}
 		for _, in := range insts {
@@ -242,6 +283,9 @@ func TestVerifC06Instances(t *testing.T) {
 		}
 		if stale > 0 {
 			cls = append(cls, "stale-instance-sequenced")
+		}
+		if loadsWithInner > 0 {
+			cls = append(cls, "round-inside-startup")
 		}
 		rec.Add("cas-conflicts", int64(conflicts))
 		rec.Add("commits", int64(len(s.commits)))
@@ -295,7 +339,7 @@ func TestVerifC06Startup(t *testing.T) {
 		s := newSimSys(t, dir)
 		id, _ := logIDFromKey(s.key)
 		_, _, alt := simKeyPair()
-		kind := rapid.SampledFrom([]string{"create-clean", "create-over-lock", "create-over-storage", "create-over-both", "create-concurrent",
+		kind := rapid.SampledFrom([]string{"create-clean", "create-over-lock", "create-over-storage", "create-over-foreign-storage", "create-over-both", "create-concurrent",
 			"clean", "behind-with-staging", "behind-without-staging", "storage-ahead", "same-size-other-root", "foreign-key-storage", "foreign-key-lock",
 			"foreign-name", "foreign-origin-same-key", "extension-line", "missing-checkpoint", "missing-edge-tile", "missing-data-tile", "lock-missing"}).Draw(t, "state")
 		fail := func(f string, a ...any) {
@@ -322,6 +366,24 @@ func TestVerifC06Startup(t *testing.T) {
 				s.w.objs["checkpoint"] = c06Sign(s.config(s.newProc()), 0, vfref.EmptyRoot(), s.w.clock-5)
 				_, err := s.create(nil)
 				expectErr("CreateLog over an existing storage checkpoint", err)
+			case "create-over-foreign-storage":
+				// the bucket already holds the checkpoint of a log with another key or another name
+				cfgF := s.config(s.newProc())
+				var obj []byte
+				switch rapid.SampledFrom([]string{"other-key", "other-name"}).Draw(t, "foreignKind") {
+				case "other-key":
+					cfgF.Key = alt
+					obj = c06Sign(cfgF, 7, vfref.LeafHash([]byte("x")), s.w.clock-5)
+				case "other-name":
+					cfgF.Name = "other.example/log"
+					obj = c06Sign(cfgF, 7, vfref.LeafHash([]byte("x")), s.w.clock-5)
+				}
+				s.w.objs["checkpoint"] = obj
+				_, err := s.create(nil)
+				expectErr("CreateLog over a bucket that already holds a checkpoint object", err)
+				if !bytes.Equal(s.w.objs["checkpoint"], obj) {
+					fail("CreateLog overwrote the existing checkpoint object")
+				}
 			case "create-over-both":
 				b := c06Sign(s.config(s.newProc()), 0, vfref.EmptyRoot(), s.w.clock-5)
 				s.w.lock[id], s.w.objs["checkpoint"] = b, b
